@@ -208,6 +208,7 @@ func runC17(r *ev.Run) {
 		}
 	}
 	runC17PeerIDs(r)
+	runC17InSwarm(r)
 }
 
 // spkiWithNullParams builds SEQUENCE{ SEQUENCE{ OID, NULL }, BIT STRING } by hand.
